@@ -85,7 +85,13 @@ for _f in sorted(_glob.glob(os.path.join(os.path.dirname(os.path.abspath(__file_
         # a bundle's obligation modules belong to the properties that bundle lists theorems for: a broken obligation of the
         # filter bundle is C16's broken tie, not C03's
         for _p in getattr(_m, "THEOREMS", {}):
+            if getattr(_m, "OBLIG_BY_PROP", None) is not None:
+                continue   # the bundle says itself which of its obligation modules belongs to which property (below)
             if getattr(_m, "THEOREMS", {}).get(_p) and _x not in OBLIG_BY_PROP.setdefault(_p, []):
+                OBLIG_BY_PROP[_p].append(_x)
+    for _p, _l in (getattr(_m, "OBLIG_BY_PROP", None) or {}).items():
+        for _x in _l:
+            if _x not in OBLIG_BY_PROP.setdefault(_p, []):
                 OBLIG_BY_PROP[_p].append(_x)
 
 # structural obligations of the coordinator (Obligations/Structure/<Cxx>.lean, one module per property): attached once it is claimed
